@@ -9,40 +9,6 @@ From V.c01 Require Import C01Codec C01Model.
 From V.c19 Require Import C19Model C19Spec C19InvProofs C19RecModel C19RecProofs C19TreeModel C19TreeProofs
   C19LeafProofs C19PrintParseProofs C19LeafPPProofs.
 
-(* ------------------------------------------------------------------ argument ranges, as a decision procedure *)
-Definition nalus16b (l : list str) : bool := forallb (fun a => lenN a <? 65536) l.
-Definition no_nulb (l : str) : bool := forallb (fun c => negb (c =? 0)) l.
-
-Definition entry_okb (e : sentry) : bool :=
-  (se_dref e <? 65536) && (se_a e <? 65536) && (se_b e <? 65536) && (se_c e <? 65536) &&
-  match se_cfg e with
-  | CfgAvcC a =>
-      (bytes_eqb (se_name e) n_avc1 || bytes_eqb (se_name e) n_avc3)
-      && (ac_profile a <? 256) && (ac_compat a <? 256) && (ac_level a <? 256)
-      && (lenN (ac_sps a) <? 32) && (lenN (ac_pps a) <? 256) && nalus16b (ac_sps a) && nalus16b (ac_pps a)
-      && (ac_chroma a <? 4) && (ac_bdl a <? 8) && (ac_bdc a <? 8)
-  | CfgHvcC h =>
-      (bytes_eqb (se_name e) n_hvc1 || bytes_eqb (se_name e) n_hev1)
-      && match hvcrec_of h with
-         | Some r => hvcrec_ok r && (hr_level r <? 256) && forallb (fun a => fst a <? 256) (hr_arrays r)
-         | None => false
-         end
-  | CfgEsds _ => bytes_eqb (se_name e) n_mp4a
-  | CfgDac3 _ => bytes_eqb (se_name e) n_ac3
-  | CfgDec3 _ => bytes_eqb (se_name e) n_ec3
-  | CfgVttC _ => true
-  | CfgStpp _ _ _ => true
-  end.
-
-Definition trak_okb (t : trak) : bool :=
-  (tk_id t <? 4294967296) && (tk_volume t <? 65536) && (tk_width t <? 4294967296) && (tk_height t <? 4294967296)
-  && (md_timescale t <? 4294967296) && (md_lang t <? 65536) && (lenN (hd_type t) =? 4)
-  && match el_lang t with Some l => (2 <=? lenN l) && no_nulb l | None => true end
-  && (lenN (sd_entries t) <? 4294967296) && forallb entry_okb (sd_entries t).
-
-Definition args_okb (s : st) : bool :=
-  (next_id s <? 4294967296) && forallb (fun id => id <? 4294967296) (trexs s) && forallb trak_okb (traks s).
-
 (* ------------------------------------------------------------------ helpers *)
 Ltac split_b H :=
   repeat (apply andb_true_iff in H; let K := fresh "K" in destruct H as [H K]);
@@ -423,4 +389,19 @@ Proof.
       * unfold mvhd_box in *. eapply wf_leafb; [reflexivity|reflexivity|reflexivity|exact Hf1|]. apply lpp_mvhd; try assumption; lia.
       * destruct (fits_cont _ _ Hf2) as [_ Hfx]. apply wf_contb; try reflexivity; try assumption. apply wf_trexs; assumption.
       * exact Wt.
+Qed.
+
+(* every history *)
+Theorem roundtrip_all (avc_parse : str -> option avc_info) (hevc_parse : str -> option (N * N * list N)) ops :
+  N.of_nat (length ops) < 4294967295 ->
+  let s := snd (run avc_parse hevc_parse ops) in
+  args_okb s = true -> forall ts, tree_of s = Some ts -> forallb enc_fits ts = true ->
+  exists bs, encode_seq false ts = Ok bs /\ decode_file bs = Ok ts
+    /\ (traks s <> [] -> is_fragmented_init ts = true)
+    /\ (forall t, In t (traks s) -> has_trex ts (tk_id t) = true).
+Proof.
+  intros Hb s Hok ts Ht Hf. destruct (inv_all avc_parse hevc_parse ops Hb) as [Hi _]. fold s in Hi.
+  destruct (roundtrip_state s ts Hi Hok Ht Hf) as (bs & He & Hd).
+  destruct (built_all avc_parse hevc_parse ops Hb ts Ht) as [Hfr Htx].
+  exists bs. repeat split; assumption.
 Qed.
